@@ -78,6 +78,8 @@ func instants(thorough bool) []time.Time {
 // varint16 is the byte string a 16-byte zero-padded signed varint occupies; it
 // is used only to *construct* ids whose bytes coincide with those of another
 // kind of value (the expected verdict never depends on it).
+var longX = strings.Repeat("k", 300)
+
 func varint16(v int64) string {
 	b := make([]byte, 16)
 	binary.PutVarint(b, v)
@@ -86,7 +88,8 @@ func varint16(v int64) string {
 
 func nodeSpecs(thorough bool) []*vals.Spec {
 	types := []string{"/a", "/a/b", "/ab", "/a/b/c", "/t", "/_"}
-	ids := []string{"a", "b", "c", "bc", "/b", "/bc", "/b/c", "b/c", "immutable", "é", "A", varint16(1), varint16(2)}
+	ids := []string{"a", "b", "c", "bc", "/b", "/bc", "/b/c", "b/c", "immutable", "é", "A", varint16(1), varint16(2),
+		longX + "a", longX + "b"} // longer than any fixed-size buffer, equal on the first 300 bytes
 	if thorough {
 		types = append(types, "/A", "/t/u", "/é")
 		ids = append(ids, "ab", "a/b", "/", "//b", "c ", " c", "immutabl", "immutablee", "text\x00abc", varint16(0), "\x00", "aimmutable")
@@ -124,7 +127,7 @@ func nodeSpecs(thorough bool) []*vals.Spec {
 }
 
 func predSpecs(thorough bool) []*vals.Spec {
-	ids := []string{"a", "/a", "/t", "p", "ab", "A", "é", "text\x00abc", "blob\x00abc", "text\x00", "bool\x00true", "aimmutable", "a" + varint16(model.T0.UnixNano())}
+	ids := []string{longX + "a", longX + "b", "a", "/a", "/t", "p", "ab", "A", "é", "text\x00abc", "blob\x00abc", "text\x00", "bool\x00true", "aimmutable", "a" + varint16(model.T0.UnixNano())}
 	if thorough {
 		ids = append(ids, "/a/b", "/", "immutable", "b", "a\x00", "float64\x00"+strings.Repeat("\x00", 8), "int64\x00"+strings.Repeat("\x00", 10), "a ", "predicate\x00a")
 	}
@@ -141,7 +144,7 @@ func predSpecs(thorough bool) []*vals.Spec {
 
 func litSpecs(thorough bool) []*vals.Spec {
 	out := []*vals.Spec{vals.BoolSpec(true), vals.BoolSpec(false)}
-	texts := []string{"", "true", "false", "abc", "0", "1", "abcimmutable", "immutable", "trueimmutable", "\x00", strings.Repeat("\x00", 8), strings.Repeat("\x00", 10), "[]", "a"}
+	texts := []string{longX + "a", longX + "b", "", "true", "false", "abc", "0", "1", "abcimmutable", "immutable", "trueimmutable", "\x00", strings.Repeat("\x00", 8), strings.Repeat("\x00", 10), "[]", "a"}
 	for _, t := range texts {
 		out = append(out, vals.TextSpec(t), vals.BlobSpec([]byte(t)))
 	}
